@@ -10,8 +10,8 @@ EVIDENCE_DIR = os.path.join(VERIF, "evidence")
 REPLAY_DIR = os.path.join(VERIF, "replays")
 KNOWN = os.path.join(VERIF, "known_findings.json")
 
-QUICK = {"life": 10, "fy": 10, "chunks": 4, "perm": 1, "alloc": 6, "timeline": 3}
-THOROUGH = {"life": 160, "fy": 60, "chunks": 40, "perm": 6, "alloc": 60, "timeline": 30}
+QUICK = {"life": 40, "fy": 16, "chunks": 8, "perm": 1, "alloc": 12, "timeline": 6}
+THOROUGH = {"life": 600, "fy": 80, "chunks": 60, "perm": 8, "alloc": 120, "timeline": 60}
 
 
 def job_list(pid, tier, seed):
